@@ -227,7 +227,7 @@ func stateProblems(files map[string][]byte) [][2]string {
 
 func main() {
 	r := mc.NewRun("C13")
-	r.Rule("E3 BFS to closure over endorse runs {image A,B,C} x {candidate '', x, y} x {overwrite} x {snapshot} through the real endorse.VirtualFirmware, over an in-memory VCS double and over localnonvcs on disk; canonical state = sorted manifest entries (path -> image) and every endorsement file -> signed image; non-trivial = distinct reached states with at least two manifest entries or a replaced entry; plus the merge-function sub-check over all manifests of <=3 entries")
+	r.Rule("E3 BFS to closure over endorse runs {image A,B,C} x {candidate '', x, y} x {overwrite} x {snapshot} through the real endorse.VirtualFirmware, over an in-memory VCS double and over localnonvcs on disk; canonical state = sorted manifest entries (path -> image) and every endorsement file -> signed image; non-trivial = distinct reached states with at least two manifest entries or a replaced entry; plus the merge-function sub-check over all manifests of <=3 entries, plus one long line (300 distinct images into one manifest, then 7 re-endorsements)")
 	defer kmfx.Cleanup()
 	auth, err := fx.NewAuthority(fx.T0, "c13")
 	if err != nil {
